@@ -37,3 +37,32 @@ Theorem C06_plan_pureb_sound : forall (V : Type) (fn : rstep -> list V -> V) (p 
   plan_pureb p = true -> plan_pure (abstract fn p).
 Proof. exact (@plan_pureb_sound). Qed.
 Print Assumptions C06_plan_pureb_sound.
+
+(* ---- the runner's instruction arms as they are in the source (regenerated table) --------------------------------
+   The theorems above are about the model [Bytecode.exec]: an operation instruction appends the plan step
+   (s_out := dst, s_args := operands) and the result of a run is the output of the last operation.  Gen/InstrArms.v is
+   rewritten from src/interpreter/src/interpreter.rs (run_program) and the instruction codec sources by
+   translators/instr_arms.py on every run of this check; the statements below tie every hand-written arm of run_program
+   to that model, so that ONE arm that forgets `self.out = ..`, the plan step, or passes its operands in another order
+   breaks them whether or not a generated program contains such an instruction.  Definitions: Proofs/InstrArmsP.v. *)
+From Coq Require Import NArith String.
+From MechV Require Import Model.SrcArms Gen.InstrArms Model.Loader Proofs.InstrArmsP.
+
+Theorem C06_instr_source_fully_read : ia_unrecognised = [].
+Proof. exact ia_nothing_unrecognised. Qed.
+Print Assumptions C06_instr_source_fully_read.
+
+(* every arm of run_program (one per instruction kind declared in enum DecodedInstr, Unknown excepted, then a catch-all):
+   the operation arms look the function up by fxn_id, read registers[dst] and registers[operand] for the operand fields in
+   declaration order, build FunctionArgs::<arity>(out, operands..), set self.out to the function's output and append the
+   function to the plan — in this order, once each; ConstLoad copies constants[const_id] into registers[dst] *)
+Theorem C06_run_program_arms_regular : run_arms_diag = [].
+Proof. exact (proj2 (proj2 (proj2 (proj2 ia_arm_sites)))). Qed.
+Print Assumptions C06_run_program_arms_regular.
+
+(* meaning: interpreting the extracted arm of an operation instruction gives the step of [Bytecode.exec] — destination
+   register, operand registers in order, then `set-out` and `add-step` *)
+Theorem C06_run_program_builds_step : forall (i : instr) (d : N) (ops : list N),
+  op_regs i = Some (d, ops) -> src_run i = Some (d, ops, ["set-out"; "add-step"]%string).
+Proof. exact src_run_builds_step. Qed.
+Print Assumptions C06_run_program_builds_step.
